@@ -30,6 +30,7 @@ type Run struct {
 	Args   []int64     `json:"args"`
 	Nondet []NondetVal `json:"nondet"`
 	Expect string      `json:"expect"`
+	Observe map[string]string `json:"observe,omitempty"`
 }
 
 type File struct {
@@ -42,8 +43,34 @@ type assertFailed struct{ msg string }
 type stop struct{}
 
 var cur struct {
-	vals []NondetVal
-	pos  int
+	vals    []NondetVal
+	pos     int
+	observe map[string]string
+}
+
+// Observe hands a text computed by the code under test to the cross-check of the engine's string
+// encoding: under the engine the text (possibly symbolic) is recorded and, for sampled paths, evaluated
+// under the path's model; the native replay of the sample must compute exactly that text.
+func Observe(label, text string) {
+	if want, ok := cur.observe[label]; ok && want != text {
+		panic(diverged{fmt.Sprintf("observation %q differs: engine %q, native %q", label, clip(want, text), clip(text, want))})
+	}
+}
+
+// clip shows the neighbourhood of the first difference between a and b.
+func clip(a, b string) string {
+	i := 0
+	for i < len(a) && i < len(b) && a[i] == b[i] {
+		i++
+	}
+	lo, hi := i-40, i+40
+	if lo < 0 {
+		lo = 0
+	}
+	if hi > len(a) {
+		hi = len(a)
+	}
+	return a[lo:hi]
 }
 
 // engineOnly kinds record decisions of the engine's scheduler / map iteration model; the native run
@@ -386,6 +413,7 @@ func RunReplay(t *testing.T, table map[string]func(a []int)) {
 		for i, a := range r.Args {
 			args[i] = int(a)
 		}
+		cur.observe = r.Observe
 		res := runOne(fn, args, r.Nondet)
 		// map iteration order cannot be forced natively: repeat until the recorded divergence shows up
 		if r.Expect == "violation" && res == "PASSED" && (usesMapOrder(r.Nondet) || hasFree(r.Nondet)) {
